@@ -164,7 +164,9 @@ def ens_validate_frame(I, env, res):
 
 
 def targets(tier):
-    return find_targets() + removed_targets() + is_fresh_targets() + [
+    from . import staleness
+
+    return find_targets() + removed_targets() + is_fresh_targets() + staleness.targets(tier) + [
         Target("fresh.validate_meta", "mypy.build:validate_meta", setup_validate,
                ensures=[("accepted-only-if-recorded-facts-hold", ens_validate), ("record-restamped-only-on-equal-hash", ens_validate_frame)],
                raises=(AssertionError,), overrides=dict(OVERRIDES, **{"contracts.fresh:FakeFsCache.hash_digest": hash_contract}), field_types=FT,
